@@ -234,7 +234,8 @@ class Queue(Greenlet):
         self.relay = relay
         self.backoff = backoff or self._default_backoff
         self.bounce_factory = bounce_factory or Bounce
-        self.bounce_queue = bounce_queue or self
+        # A Queue is a Greenlet, which is falsy until it is running.
+        self.bounce_queue = bounce_queue if bounce_queue is not None else self
         self.wake = Event()
         self.queued = []
         self.active_ids = set()
